@@ -159,10 +159,10 @@ for k, v in extra4.items():
 extra5 = {
  'C01': ' Acceptability predicates compare errors with sentinels only through errors.Is/As (R11); a handler that panicked is rejected by the REST middleware (found and fixed F17).',
  'C02': ' The state fields of a shedder are made for that shedder, never a package-level variable (R11).',
- 'C05': ' Pool.Put never changes the resource count and only Get writes it; the unbounded stream walk is reached only through the explicit option.',
+ 'C05': ' Pool.Put never changes the resource count and only Get writes it; the unbounded stream walk is reached only through the explicit option; the slot of a creation that panicked is given back (found and fixed F31).',
  'C06': ' The requested expiry is written only after it was found positive, else the configured one (found and fixed F25); keyer and primaryQuery get the index entry\'s primary key unchanged (R6b); cache constructors forward the barrier they were given.',
  'C07': ' A flight whose function does not return leaves a non-nil error for its joiners (found and fixed F18); the cache node\'s use of the flight is checked under C07 as well (R9).',
- 'C08': ' The range table includes the unordered (NaN) rows (found and fixed F22); both range validators accept only through the verified comparator (R4b); no method call on reflect.TypeOf of a possibly-null document element (R6b).',
+ 'C08': ' The range table includes the unordered (NaN) rows (found and fixed F22); both range validators accept only through the verified comparator (R4b); no method call on reflect.TypeOf of a possibly-null document element (R6b); no decode straight into the typed target (R11; known finding F32).',
  'C09': ' Path-variable maps are made by the search that returns them, never pooled or shared (R8).',
  'C10': ' The mapper semaphore is sized from the configured worker count (R9); the panic hand-off channel has capacity >= 1 so a late panic cannot hang the call (R10; found and fixed F26).',
  'C11': ' No mutex taken around a container\'s user callback stays held when the callback panics (R9).',
@@ -174,7 +174,8 @@ extra5 = {
  'C17': ' Every entry of a document map is stored (R13); map-typed configuration fields keep entry names apart from the element\'s field names (R14).',
  'C18': ' Body bytes reach the client only from the deferred flush; an empty ciphertext is an error (found and fixed F24a; partial blocks: known finding F24b); the router dispatches by the request\'s own method only (R11).',
  'C19': ' The lease arithmetic is 64-bit on every platform (found and fixed F23); no RedisLock method defers work to a goroutine or timer (R8).',
- 'C20': ' Printf-family calls executed by the formatter have constant format strings (R8; found and fixed F19); scanner errors are recorded before the parser gives up (R9); format.Source hands the caller\'s writer to AST.Format once and writes nothing else (R10); IsZeroString accepts exactly the two empty literals (R11).',
+ 'C04': ' The buffering writer never latches an informational status (R3g; found and fixed F28).',
+ 'C20': ' Printf-family calls executed by the formatter have constant format strings (R8; found and fixed F19); scanner errors are recorded before the parser gives up (R9); format.Source hands the caller\'s writer to AST.Format once and writes nothing else (R10); IsZeroString accepts exactly the two empty literals (R11); children that Format dereferences unconditionally are set by every parse method returning the node (R12; found and fixed F29); a block comment ends only at */ (R13, unrolled state machine; found and fixed F30).',
 }
 for k, v in extra5.items():
     lvl, tech, text, note, ref = claims[k]
